@@ -10,6 +10,8 @@
 (*   perm   the permutation last searched (searched = FALSE before that)   *)
 (*   reply  what that search listed (0-based index tuples, in order)       *)
 (* Actions: Search(q)  - one call of patt.occurrences_in(q), fully consumed*)
+(*          SearchedIn(p2) - one call of p2.occurrences_in(patt): the object  *)
+(*                       is the permutation being searched                 *)
 (*          Fresh      - a new object with the same value (memo unbound)   *)
 (* Two configurations: INIT InitInputs / NEXT Stutter enumerates the whole *)
 (* input universe one state per (pattern, permutation); INIT InitHist /    *)
@@ -19,8 +21,11 @@ EXTENDS SearchTable, Json
 
 CONSTANTS MinPatt, MaxPatt, MinPerm, MaxPerm, Shard, NShards, Colours
 
-VARIABLES patt, bound, searched, perm, reply, cols, its
-vars == <<patt, bound, searched, perm, reply, cols, its>>
+VARIABLES patt, bound, searched, perm, reply, cols, its, astext
+vars == <<patt, bound, searched, perm, reply, cols, its, astext>>
+\* astext: the last call used this object as the *permutation being searched* (another pattern, held
+\*      in perm, was searched in it); reply is then the listing of perm in patt.  Being searched in
+\*      does not touch the object's own search table.
 \* its: the searches currently open as lazy iterators on this pattern object, each
 \*      [q |-> permutation, got |-> the tuples yielded so far, done |-> exhausted]
 \* cols: <<>> for a plain search, <<cp, cq>> (colours of pattern / permutation positions)
@@ -36,40 +41,47 @@ Universe == {q \in PPermsBetween(MinPerm, MaxPerm) : PWeight(q) % NShards = Shar
 
 InitInputs == /\ patt \in Patts
               /\ perm \in Universe
-              /\ bound = TRUE /\ searched = TRUE /\ cols = <<>> /\ its = <<>>
+              /\ bound = TRUE /\ searched = TRUE /\ cols = <<>> /\ its = <<>> /\ astext = FALSE
               /\ reply = POccSeq0(patt, perm)
 Stutter == UNCHANGED vars
 
-InitHist == patt \in Patts /\ bound = FALSE /\ searched = FALSE /\ perm = <<>> /\ reply = <<>> /\ cols = <<>> /\ its = <<>>
+InitHist == patt \in Patts /\ bound = FALSE /\ searched = FALSE /\ perm = <<>> /\ reply = <<>> /\ cols = <<>> /\ its = <<>> /\ astext = FALSE
 
 Search(q) == /\ perm' = q
              /\ reply' = POccSeq0(patt, q)          \* the definition, whatever memo holds
              /\ bound' = TRUE                       \* table bound on first use, then kept
-             /\ searched' = TRUE /\ cols' = <<>>
+             /\ searched' = TRUE /\ cols' = <<>> /\ astext' = FALSE
              /\ UNCHANGED <<patt, its>>
+\* the object in the other role: pattern p2 is searched in it (history of a *permutation* object,
+\* and of an object that is pattern in one call and permutation in the next)
+SearchedIn(p2) == /\ perm' = p2
+                  /\ reply' = POccSeq0(p2, patt)
+                  /\ astext' = TRUE /\ searched' = TRUE /\ cols' = <<>>
+                  /\ UNCHANGED <<patt, bound, its>>
 \* a coloured search uses (and on first use binds) the same table
 SearchCol(q, cp, cq) == /\ perm' = q /\ cols' = <<cp, cq>>
                         /\ reply' = POccColSeq0(patt, q, cp, cq)
-                        /\ bound' = TRUE /\ searched' = TRUE
+                        /\ bound' = TRUE /\ searched' = TRUE /\ astext' = FALSE
                         /\ UNCHANGED <<patt, its>>
 Fresh == /\ bound
          /\ bound' = FALSE
-         /\ UNCHANGED <<patt, searched, perm, reply, cols, its>>
+         /\ UNCHANGED <<patt, searched, perm, reply, cols, its, astext>>
 \* Lazy protocol: occurrences_in returns a generator; several may be open on the same
 \* object and be advanced in any interleaving.  Each yields the listing in order.
 MaxIts == 2
 OpenIter(q) == /\ Len(its) < MaxIts
                /\ its' = Append(its, [q |-> q, got |-> <<>>, done |-> FALSE])
-               /\ UNCHANGED <<patt, bound, searched, perm, reply, cols>>
+               /\ UNCHANGED <<patt, bound, searched, perm, reply, cols, astext>>
 StepIter(i) == /\ i \in DOMAIN its /\ ~its[i].done
                /\ LET all == POccSeq0(patt, its[i].q)  k == Len(its[i].got) IN
                   /\ its' = IF k < Len(all) THEN [its EXCEPT ![i].got = Append(@, all[k + 1])]
                                              ELSE [its EXCEPT ![i].done = TRUE]
                   /\ bound' = (bound \/ Len(patt) \in 1..Len(its[i].q))   \* table is bound when the body first runs
-               /\ UNCHANGED <<patt, searched, perm, reply, cols>>
+               /\ UNCHANGED <<patt, searched, perm, reply, cols, astext>>
 NextIter == \/ \E q \in Universe : OpenIter(q)
             \/ \E i \in 1..MaxIts : StepIter(i)
             \/ \E q \in Universe : Search(q)
+            \/ \E p2 \in Patts : SearchedIn(p2)
 \* whatever the interleaving, each iterator has yielded a prefix of the listing, and the
 \* whole listing once it is exhausted
 ItersIndependent == \A i \in DOMAIN its :
@@ -80,19 +92,24 @@ ColourSeqs(n) == [1..n -> Colours]
 NextHist == \/ Fresh
             \/ \E q \in Universe : Search(q)
             \/ \E q \in Universe : \E cp \in ColourSeqs(Len(patt)) : \E cq \in ColourSeqs(Len(q)) : SearchCol(q, cp, cq)
+            \/ \E p2 \in Patts : SearchedIn(p2)
 
 \* ---- properties of the specification itself ---------------------------------
+\* the two roles of the last call: SP is the pattern searched for, ST the permutation searched in
+SP == IF astext THEN perm ELSE patt
+ST == IF astext THEN patt ELSE perm
 TypeOK == /\ PIsPerm(patt)
-          /\ PIsPerm(perm) /\ bound \in BOOLEAN /\ searched \in BOOLEAN
+          /\ PIsPerm(perm) /\ bound \in BOOLEAN /\ searched \in BOOLEAN /\ astext \in BOOLEAN
+          /\ (astext => cols = <<>>)
 ReplyIsListing ==           \* each occurrence once, sorted, exactly the definition
     searched =>
       /\ \A i \in DOMAIN reply : \A j \in DOMAIN reply : i < j => PLexLess(reply[i], reply[j])
       /\ {reply[i] : i \in DOMAIN reply} =
-            {PZero(t) : t \in {u \in POcc(patt, perm) : cols = <<>> \/ \A i \in DOMAIN u : cols[2][u[i]] = cols[1][i]}}
-EmptyPatternOnce == (searched /\ Len(patt) = 0) => reply = << <<>> >>
+            {PZero(t) : t \in {u \in POcc(SP, ST) : cols = <<>> \/ \A i \in DOMAIN u : cols[2][u[i]] = cols[1][i]}}
+EmptyPatternOnce == (searched /\ Len(SP) = 0) => reply = << <<>> >>
 ColoursOnlyRestrict == (searched /\ cols # <<>>) =>
-      {reply[i] : i \in DOMAIN reply} \subseteq {PZero(t) : t \in POcc(patt, perm)}
-TooLongNever == (searched /\ Len(patt) > Len(perm)) => reply = <<>>
+      {reply[i] : i \in DOMAIN reply} \subseteq {PZero(t) : t \in POcc(SP, ST)}
+TooLongNever == (searched /\ Len(SP) > Len(ST)) => reply = <<>>
 Memo == IF bound THEN PDetails(patt) ELSE <<>>
 \* the table is well formed: floor/ceiling really are the nearest values to the left
 MemoWellFormed == bound =>
@@ -105,14 +122,15 @@ MemoWellFormed == bound =>
          /\ d[2] # -1 => (patt[d[2] + 1] > patt[k] /\ d[4] = patt[d[2] + 1] - patt[k]
                            /\ ~\E j \in 1..(k - 1) : patt[d[2] + 1] > patt[j] /\ patt[j] > patt[k])
 \* containment is monotone: deleting a point of the pattern keeps containment
-Monotone == (searched /\ reply # <<>> /\ Len(patt) > 0) =>
-              \A i \in DOMAIN patt : PContains(perm, PStd(PSeqDel(patt, i)))
+Monotone == (searched /\ reply # <<>> /\ Len(SP) > 0) =>
+              \A i \in DOMAIN SP : PContains(ST, PStd(PSeqDel(SP, i)))
 
 HistView == <<patt, bound, its>>     \* perm/reply are observation variables
 
 \* ---- emission ----------------------------------------------------------------
 EmitState == PrintT(ToJson([p |-> patt, q |-> perm, occ |-> reply, tab |-> Memo]))
 EmitEdge == PrintT(ToJson([p |-> patt, frombound |-> bound,
-                           act |-> IF bound /\ ~bound' THEN "Fresh" ELSE IF cols' = <<>> THEN "Search" ELSE "SearchCol",
+                           act |-> IF bound /\ ~bound' THEN "Fresh" ELSE IF astext' THEN "SearchedIn"
+                                   ELSE IF cols' = <<>> THEN "Search" ELSE "SearchCol",
                            q |-> perm', cols |-> cols', occ |-> reply', tobound |-> bound']))
 =============================================================================
